@@ -170,8 +170,10 @@ theorem async_add_closed (s : MulticastOutgoingQueue) (now : Int) (answers : Dic
       intro h0
       have : s.queue = [] := List.length_eq_zero_iff.1 h0
       rw [this] at hq; cases hq
-    simp only [hne, ne_eq, not_false_eq_true, decide_true, if_true, PyList.last, hq, bind, Except.bind, AnswerGroup.init, pure, Except.pure,
-      decide_eq_true_eq]
+    have hemp : List.isEmpty s.queue = false := by cases hs : s.queue <;> simp_all
+    -- `if len(self.queue):` and `if self.queue:` prove alike
+    simp only [hne, hemp, Bool.not_false, ne_eq, not_false_eq_true, decide_true, if_true, PyList.last, hq, bind, Except.bind, AnswerGroup.init,
+      pure, Except.pure, decide_eq_true_eq]
 
 /-- **`async_add`** is the model's `Queue.add`: same groups, and it arms a timer (returns a `call_at`) exactly when the model does,
 for the same instant.  `rand` is `random.randint`, `clock` the loop time in ms. -/
